@@ -786,10 +786,17 @@ class CompartmentalSystem(Statement):
             return True
         if not isinstance(other, CompartmentalSystem):
             return NotImplemented
+
+        def dosing(cs):
+            try:
+                return cs.dosing_compartments
+            except ValueError:  # No dose or no central compartment
+                return None
+
         return (
             self._t == other._t
             and nx.to_dict_of_dicts(self._g) == nx.to_dict_of_dicts(other._g)
-            and self.dosing_compartments == other.dosing_compartments
+            and dosing(self) == dosing(other)
         )
 
     def __hash__(self):
